@@ -729,8 +729,13 @@ class DAG(BaseDAG[P, RVDAG]):
                 registered_input_ids.append(uxn.id)
 
             # updating ids of results already registered in the DAG due to pipeline.setup and default args
+            # an input of the SubDAG that received an argument must not fall back to its default value
             node.results.update(
-                StrictDict((to_subdag_id(id_), res) for id_, res in self.results.items())
+                StrictDict(
+                    (to_subdag_id(id_), res)
+                    for id_, res in self.results.items()
+                    if to_subdag_id(id_) not in registered_input_ids
+                )
             )
 
             # updating values of the ExecNodes with the new Ids only for the inputs that were changed!
